@@ -121,3 +121,204 @@ def c09_r1(ctx):
                 ctx.ob(f, ok, "%s.%s() read is guarded (%s)" % (x, nm, need),
                        detail="facts: %s" % sorted(t for (p, t) in facts if "id()" in t or "is_active" in t)[:8] if not ok else "",
                        loc=ctx.nodeloc(f, c))
+
+
+# ------------------------------------------------------------------- R3
+from ..traces import Tracer, fmt
+
+BOOST_EXEMPT = {
+    "query.wrappers.Not": "documented: 'Boost is meaningless for excluded documents'",
+    "query.compound.SplitOr": "unfinished experiment: its matcher() references matching.ArrayMatcher, which does not exist",
+}
+
+
+@rule("C09", "R3", "K11", "a query's boost reaches the matcher it returns on every path",
+      min_instances=8,
+      clause="For every query class with a boost parameter, each path of matcher() (with _matcher/_tree_matcher "
+             "inlined per concrete class) that returns a non-null matcher either passes self.boost on (WrappingMatcher, "
+             "boost=/all_weights= argument, child query built with boost=self.boost) or has tested self.boost == 1.")
+def c09_r3(ctx):
+    prog = ctx.prog
+    qbase = prog.cls("query.qcore.Query")
+
+    def classify(func, call, res, concrete):
+        for a in list(call.args) + [k.value for k in call.keywords]:
+            t = norm.canon(a)
+            if t == "self.boost" or t.endswith("* self.boost)") or t.startswith("(self.boost *"):
+                return "apply_boost"
+        return None
+
+    def follow(func, call, res, concrete):
+        nm = norm.call_name(call)
+        if isinstance(call.func, ast.Attribute) and norm.canon(call.func.value) == "self" and nm and nm.startswith("_") \
+                and not nm.startswith("__") and res.targets and res.kind in ("exact", "cha"):
+            return [(res.targets[0], concrete)]
+        # explicit base-class call:  PatternQuery.matcher(self, searcher, context)
+        if isinstance(call.func, ast.Attribute) and nm == "matcher" and call.args and \
+                isinstance(call.args[0], ast.Name) and call.args[0].id == "self" and res.kind == "exact" and res.targets:
+            return [(res.targets[0], concrete)]
+        return []
+
+    def edge_event(func, node, label):
+        if node.kind != "test":
+            return None
+        t = norm.canon(node.ast)
+        if t in ("(1.0 != self.boost)", "(1 != self.boost)", "(self.boost != 1.0)", "(self.boost != 1)"):
+            return "boost_one" if label[0] == "F" else None
+        if t in ("(1.0 == self.boost)", "(1 == self.boost)", "(self.boost == 1.0)", "(self.boost == 1)"):
+            return "boost_one" if label[0] == "T" else None
+        return None
+
+    def stmt_event(func, node):
+        if node.kind == "return":
+            v = node.ast.value
+            t = norm.canon(v) if v is not None else "None"
+            if "NullMatcher" in t:
+                return "ret:null"
+            if t.endswith("NullQuery") or t.endswith("NullQuery()"):
+                return "nullq"
+            if func.name == "matcher" and func.qualname == cur_entry[0]:
+                return "ret"
+        return None
+
+    cur_entry = [None]
+    tr = Tracer(prog, calls_of(prog), classify, follow, stmt_event=stmt_event, edge_event=edge_event,
+                max_depth=3, track_raises=False)
+    seen = set()
+    for k in BOOST_EXEMPT:
+        prog.cls(k)
+    for cls in prog.subclasses(qbase, strict=True):
+        init = prog.lookup(cls, "__init__")
+        if init is None or "boost" not in init.params or cls.short in BOOST_EXEMPT:
+            continue
+        f = prog.lookup(cls, "matcher")
+        if f is None or is_abstract_body(f):
+            continue
+        ctx.saw(f)
+        cur_entry[0] = f.qualname
+        tr._memo.clear()
+        res = tr.traces(f, cls)
+        bad = None
+        for t in sorted(res["normal"]):
+            if not t or t[-1] != "ret":
+                continue
+            if "apply_boost" in t or "boost_one" in t or "ret:null" in t or "nullq" in t:
+                continue
+            bad = t
+            break
+        # attribute the obligation to the function that returns on the offending path
+        construct = "%s [self=%s]" % (f.short, cls.name)
+        key = (f.qualname, bad)
+        if bad is not None and (f.qualname, "bad") in seen:
+            # same inherited method already reported for another subclass
+            ctx.ob(f.short, False, "every non-null return applies self.boost or has tested it to be 1",
+                   detail="e.g. self=%s: %s" % (cls.name, fmt(bad)), loc=f.loc)
+            continue
+        if bad is not None:
+            seen.add((f.qualname, "bad"))
+        ctx.ob(f.short if bad is not None else construct, bad is None,
+               "every non-null return applies self.boost or has tested it to be 1",
+               detail="e.g. self=%s: path %s returns a matcher that ignores the query's boost" % (cls.name, fmt(bad)) if bad else "",
+               loc=f.loc)
+
+
+# ------------------------------------------------------------------- R4
+GLOBAL_STATS = ("idf", "avg_field_length", "field_length", "doc_count_all", "doc_count", "frequency",
+                "doc_frequency", "weight")
+SEGMENT_STATS = ("doc_field_length",)
+
+
+@rule("C09", "R4", "K11", "collection statistics come from the top-level searcher, per-document lengths from the segment",
+      min_instances=6,
+      clause="In whoosh.scoring every read of idf / avg_field_length / field_length / doc_count(_all) / "
+             "(doc_)frequency is made on searcher.get_parent(); doc_field_length is read from the segment searcher "
+             "the scorer was created for.")
+def c09_r4(ctx):
+    prog = ctx.prog
+    mod = prog.module("scoring")
+    n = 0
+    for f in prog.functions.values():
+        if f.module is not mod:
+            continue
+        for c in norm.calls_in(f.node, include_nested_defs=True):
+            nm = norm.call_name(c)
+            if not isinstance(c.func, ast.Attribute):
+                continue
+            recv = norm.deep_canon(c.func.value, f.node)
+            if nm in GLOBAL_STATS and ("searcher" in recv or recv == "parent"):
+                n += 1
+                ctx.saw(f)
+                ctx.ob(f, recv == "searcher.get_parent()", "%s(...) is read from the top-level searcher" % nm,
+                       detail="receiver: %s -- a per-segment searcher makes scores depend on segment layout" % recv
+                       if recv != "searcher.get_parent()" else "", loc=ctx.nodeloc(f, c))
+            elif nm in SEGMENT_STATS and "searcher" in recv:
+                n += 1
+                ctx.ob(f, recv in ("searcher", "self.searcher"), "%s(...) is read from the segment searcher" % nm,
+                       detail="receiver: %s" % recv, loc=ctx.nodeloc(f, c))
+    if n < 6:
+        raise AnalysisError("only %d statistic reads found in scoring.py" % n)
+    # Searcher.idf/avg_field_length delegate to its own reader (which for the parent is the whole index)
+    gp = prog.method("searching.Searcher", "get_parent", inherited=False)
+    rets = [norm.canon(r.value) for r in returns_of(gp) if r.value is not None]
+    ctx.ob(gp, set(rets) <= {"self.parent()", "self", "self._parent", "self.parent"} and "self" in rets,
+           "get_parent() returns the parent searcher, or self for a top-level searcher", detail=str(rets))
+
+
+# ------------------------------------------------------------------- R2
+from .. import shapes as S
+from .c12 import return_shapes
+
+# query class -> (matcher class it builds, documented score shapes)  [docs/source/api/query.rst + class docstrings]
+DOCUMENTED_SHAPES = [
+    ("query.compound.And", "matching.binary.IntersectionMatcher", {"Sum{S(a), S(b)}"},
+     "sum over clauses (all match)"),
+    ("query.compound.DefaultOr", "matching.binary.UnionMatcher", {"S(a)", "S(b)", "Sum{S(a), S(b)}"},
+     "sum over the clauses that match the document"),
+    ("query.compound.DisjunctionMax", "matching.binary.DisjunctionMaxMatcher", {"S(a)", "S(b)", "Max{S(a), S(b)}"},
+     "maximum over the clauses that match the document"),
+    ("query.compound.Require", "matching.wrappers.RequireMatcher", {"S(a)"}, "first operand only"),
+    ("query.compound.AndNot", "matching.binary.AndNotMatcher", {"S(a)"}, "first operand only"),
+    ("query.compound.AndMaybe", "matching.binary.AndMaybeMatcher", {"S(a)", "Sum{S(a), S(b)}"},
+     "first operand, plus the second when it matches the document"),
+    ("query.wrappers.ConstantScoreQuery", "matching.wrappers.ConstantScoreWrapperMatcher", {"Const(self._score)"},
+     "a constant"),
+    (None, "matching.wrappers.WrappingMatcher", {"Scale(self.boost, S(child))"}, "child score times the boost"),
+]
+
+
+@rule("C09", "R2", "K8", "each query kind builds the matcher whose score shape is the documented composition",
+      min_instances=8,
+      clause="And/Or sum the matching clauses, DisjunctionMax takes their maximum, Require/AndNot score the first "
+             "operand only, AndMaybe adds the second when present, ConstantScore is constant, boosts scale: the "
+             "symbolic score shapes of the matcher classes equal this table and each query class references its matcher class.")
+def c09_r2(ctx):
+    prog = ctx.prog
+    for qname, mname, want, doc in DOCUMENTED_SHAPES:
+        mcls = prog.cls(mname)
+        f, sc = return_shapes(prog, mcls, "score")
+        got = set(S.show(t) for _, t in (sc or []))
+        ctx.ob(mcls, got == want, "score() shape is %s" % doc,
+               detail="extracted %s, documented %s" % (sorted(got), sorted(want)) if got != want else "", loc=f.loc if f else mcls.loc)
+        if qname:
+            qcls = prog.cls(qname)
+            refs = set()
+            for meth in ("matcher", "_matcher"):
+                g = prog.lookup(qcls, meth)
+                if g is None:
+                    continue
+                for n in ast.walk(g.node):
+                    if isinstance(n, (ast.Name, ast.Attribute)):
+                        r = prog.resolve_in_func(g, n)
+                        if r is not None and r[0] == "class":
+                            refs.add(r[1].qualname)
+            # class attributes such as  matcherclass = ...
+            for k in prog.mro(qcls):
+                if isinstance(k, str):
+                    continue
+                for v in k.attrs.values():
+                    if isinstance(v, (ast.Name, ast.Attribute)):
+                        r = prog.resolve_expr(k.module, v, k)
+                        if r is not None and r[0] == "class":
+                            refs.add(r[1].qualname)
+            ctx.ob(qcls, mcls.qualname in refs, "%s builds %s" % (qcls.name, mcls.name),
+                   detail="matcher classes referenced: %s" % sorted(x.split(".")[-1] for x in refs if "atcher" in x), loc=qcls.loc)
